@@ -8,7 +8,7 @@
    and branch is a scope) is Proofs.ScopeBridge; the theorems of props/C10.v
    are stated there. *)
 From Coq Require Import List NArith Arith Bool Lia Decimal DecimalNat.
-Require Import Gen.SsaKey Model.Base Model.Ir Model.UniqueVars Spec.ScopeSpec Proofs.ScopeStack.
+Require Import Model.Base Model.Ir Model.UniqueVars Spec.ScopeSpec Proofs.ScopeStack.
 Import ListNotations.
 
 (* ------------------------------------------------------------------ *)
@@ -641,7 +641,7 @@ Proof.
   - subst. auto.
 Qed.
 
-(* the decision for the format read from ssa_impl.rs (Gen.SsaKey) *)
+(* the decision for the format of Model.UniqueVars.ssa_key (Environment::version_key) *)
 Lemma ssa_key_format_separates : key_format_ok version_key_some version_key_none = true.
 Proof. vm_compute. reflexivity. Qed.
 
@@ -650,11 +650,6 @@ Theorem ssa_keys_injective : forall v1 v2,
   ssa_key v1 = ssa_key v2 ->
   vn_name v1 = vn_name v2 /\ vn_suffix v1 = vn_suffix v2.
 Proof. exact (separating_key_formats_injective _ _ ssa_key_format_separates). Qed.
-
-(* every access to the version maps in ssa_impl.rs uses the result of version_key *)
-Lemma ssa_maps_keyed_by_version_key :
-  version_map_accesses <> [] /\ forallb (fun a => snd (snd a)) version_map_accesses = true.
-Proof. split; [vm_compute; discriminate|vm_compute; reflexivity]. Qed.
 
 (* D20: the key used before the repair identifies x with suffix 0 and the identifier x_0 *)
 Theorem ssa_keys_injective_refuted : exists v1 v2,
